@@ -6,7 +6,9 @@ drv_server ops (not verified; exercised on every line):
   srv run <kind> <auth:T|F> <nb> <tok>*        kind = threaded | pool | forking | oneshot
   srv classify <hex> [<inhex>=<outhex|E>,..]   frames of a byte string
 
-tokens:  c<k>:<g|b|s|r> connect (good / bad / no credentials yet / connection reset at once) · k<k>:<g|b> the late
+tokens:  c<k>:g:<j> connect, the accepted socket getting the descriptor number client j's closed socket had · m<k> a call
+that arms the service instance's on_disconnect to block · h<k> release that on_disconnect ·
+c<k>:<g|b|s|r> connect (good / bad / no credentials yet / connection reset at once) · k<k>:<g|b> the late
 credentials of a client that connected with s · d<k>:<n> release the object of the n-th lend · · p<k> call · u<k>:<n> a call that passes the n-th kind of by-reference argument, which the service uses through
 callbacks (to the model: a call) · x<k>:<n>:<m> a hostile but well-formed request naming a foreign / builtin type and answering
 the server's class inspection with junk (to the model: a handled frame) · l<k> call that lends an object ·
@@ -76,7 +78,12 @@ def parseTok (tok : String) : Option Tok :=
     | [k, c] => match parseNatChars k, parseCred c with
       | some k, some c => some (.op (.connect k c))
       | _, _ => none
+    | [k, ['g'], j] => match parseNatChars k, parseNatChars j with
+      | some k, some j => some (.op (.connectReuse k j))
+      | _, _ => none
     | _ => none
+  | 'm' :: cs => (parseNatChars cs).map (fun k => .op (.call k .arm))
+  | 'h' :: cs => (parseNatChars cs).map (fun k => .op (.releaseHook k))
   | 'p' :: cs => (parseNatChars cs).map (fun k => .op (.call k .ping))
   | 'u' :: cs => match splitColon cs with
     | k :: _ => (parseNatChars k).map (fun k => .op (.call k .ping))
@@ -145,7 +152,7 @@ def showSt (s : St) : String :=
 /-- debugging aid: phases -/
 def showPhases (s : St) : String :=
   " ".intercalate (s.ids.map (fun k => toString k ++ "=" ++ (match (s.cli k).phase with
-    | .absent => "absent" | .backlog => "backlog" | .authing => "authing" | .idle => "idle"
+    | .absent => "absent" | .backlog => "backlog" | .authing => "authing" | .idle => "idle" | .closing => "closing"
     | .queued => "queued" | .blocked => "blocked" | .done => "done")))
 
 def lendOid (c : Cli) (seq : Nat) : Option Nat :=
@@ -192,13 +199,15 @@ def serverOp : List String → String
     match parseKind kind, (match auth with | "T" => some true | "F" => some false | _ => none),
           parseNatChars nb.toList, toks.mapM parseTok with
     | some kind, some auth, some nb, some toks =>
-      " ; ".intercalate (runToks false toks (init { kind := kind, auth := auth, nb := nb }) [] [])
+      " ; ".intercalate (runToks false toks
+        (init { kind := kind, auth := auth, nb := nb, spare := Gen.Srv.poolDropSparesNewcomer }) [] [])
     | _, _, _, _ => "bad-op"
   | "debug" :: kind :: auth :: nb :: toks =>
     match parseKind kind, (match auth with | "T" => some true | "F" => some false | _ => none),
           parseNatChars nb.toList, toks.mapM parseTok with
     | some kind, some auth, some nb, some toks =>
-      " ; ".intercalate (runToks true toks (init { kind := kind, auth := auth, nb := nb }) [] [])
+      " ; ".intercalate (runToks true toks
+        (init { kind := kind, auth := auth, nb := nb, spare := Gen.Srv.poolDropSparesNewcomer }) [] [])
     | _, _, _, _ => "bad-op"
   | ["classify", h] =>
     match parseHex h with
